@@ -270,6 +270,17 @@ def _sqlite(check: Check):
         if isinstance(x, ast.Call) and rff.ext(x.func) == 'zlib.decompress' and rff.param_of(x.args[0]) == rd.positional_params[0]:
           ok_r = True
   bld = repo.cls(SQL, 'SQLiteFederatedDataBuilder')
+  # a new dataset is written into a new table: CREATE TABLE without IF NOT EXISTS, so that building over an existing file fails instead
+  # of reading back as the union of the old and the new clients
+  import re as _re
+  binit = bld.method('__init__')
+  creates = [x for x in ast.walk(binit.node) if isinstance(x, ast.Constant) and isinstance(x.value, str) and _re.search(r'\bCREATE\s+TABLE\b', x.value, _re.I)]
+  for x in creates:
+    check.ob('R-SQL.create', binit, ' '.join(x.value.split())[:60], not _re.search(r'IF\s+NOT\s+EXISTS', x.value, _re.I),
+             'the table is created unconditionally (an existing table is an error): what is read back is exactly what this builder wrote',
+             node=x, exact=True)
+  if not creates:
+    check.ob('R-SQL.create', binit, 'CREATE TABLE', None, 'no CREATE TABLE statement found in the builder constructor')
   pp = bld.method('add_many').nested('prepare_parameters')
   pff = FuncFlow.of(repo, pp)
   check.analysed(pp)
